@@ -401,4 +401,4 @@ def run(ctx):
     ctx.require_count("R05.3", 12)
     ctx.require_count("R05.4", 5)
     ctx.require_count("R05.5", 5)
-    ctx.require_count("R05.6", 6)
+    ctx.require_count("R05.6", 5)
